@@ -81,6 +81,18 @@ fn ml_opt(win: &Win, f: u64, w: u32, ml: u64) -> Option<u8> {
     if ml == 255 { None } else { Some(win.len(f, w, ml)) }
 }
 
+/// `cmp` as a caller sees it: `partial_cmp` and the four operators have to agree with it ("ops-disagree" otherwise)
+fn ord_obs<T: Ord>(a: &T, b: &T) -> &'static str {
+    let c = a.cmp(b);
+    let ops = (a < b, a > b, a <= b, a >= b, a.partial_cmp(b) == Some(c));
+    let want = match c {
+        std::cmp::Ordering::Less => (true, false, true, false, true),
+        std::cmp::Ordering::Greater => (false, true, false, true, true),
+        std::cmp::Ordering::Equal => (false, false, true, true, true),
+    };
+    if ops == want { ord_name(c) } else { "ops-disagree" }
+}
+
 struct PairObs {
     covers: bool,
     cmp: &'static str,
@@ -99,12 +111,12 @@ fn observe_pair(p: Prefix, pml: Option<u8>, q: Prefix, qml: Option<u8>, asn: (As
     let (o, r) = (RouteOrigin::new(m, asn.0), RouteOrigin::new(n, asn.1));
     Ok(PairObs {
         covers: p.covers(q),
-        cmp: ord_name(p.cmp(&q)),
+        cmp: ord_obs(&p, &q),
         eq: p == q,
         hash_eq: h(&p) == h(&q),
-        mlcmp: ord_name(m.cmp(&n)),
+        mlcmp: ord_obs(&m, &n),
         mleq: m == n,
-        ocmp: ord_name(o.cmp(&r)),
+        ocmp: ord_obs(&o, &r),
         oeq: o == r,
         ohash_eq: h(&o) == h(&r),
     })
